@@ -149,7 +149,7 @@ pub fn run_check(ctx: &Ctx) -> Report {
     let cases = ctx.pick(150_000u32, 4_000_000u32) / ctx.shards as u32;
     let seed = ctx.seed;
     par_shards(ctx.shards, rep, move |shard, r| {
-        let cfg = DiffCfg { prop: "C09", driver: "scopes-vs-reference", profile: Profile::scopes(), cases, max_len: 600, seed: seed.wrapping_mul(104_729) + shard as u64 };
+        let cfg = DiffCfg { prop: "C09", driver: "scopes-vs-reference", profile: Profile::scopes(), cases, max_len: 600, seed: seed.wrapping_mul(104_729) + shard as u64, layout: false };
         run_diff_tapes(r, &cfg, &nontrivial, &known);
         let profile = Profile::scopes();
         let mut stats = [0u64; 4];
